@@ -110,6 +110,32 @@ def prev_prime_det(x):
     return x if x >= 2 else None
 
 
+class WitnessSeam:
+    """Deterministic stand-in for the `random` module where a Miller-Rabin implementation draws its witnesses
+    (`random.randint(lo, hi)`): returns the entries of `script` cyclically, or -- with script None -- the 13
+    bases MR_BASES cyclically (every window of 13 consecutive draws contains all of them)."""
+
+    def __init__(self):
+        self.script = None
+        self.pos = 0
+        self.calls = 0
+
+    def feed(self, script):
+        self.script = script
+        self.pos = 0
+        self.calls = 0
+
+    def randint(self, lo, hi):
+        self.calls += 1
+        seq = MR_BASES if self.script is None else self.script
+        a = seq[self.pos % len(seq)]
+        self.pos += 1
+        return a
+
+    def __getattr__(self, name):
+        raise AttributeError(f'witness seam: random.{name} was used; only randint is modelled')
+
+
 # Exponents j <= 1300 for which 2^j - 1 is prime (classical table, Mersenne .. Robinson 1952).
 MERSENNE_EXPONENTS = (2, 3, 5, 7, 13, 17, 19, 31, 61, 89, 107, 127, 521, 607, 1279)
 
